@@ -79,7 +79,8 @@ func verifC14Literals() {
 	long := strings.Repeat("a", 64)
 	big := strings.Repeat("abcdefg.", 33) // 264 bytes
 	forms := []string{"192.0.2.1", "192.0.2.1:8443", "[2001:db8::1]:443", "2001:db8::1", "localhost", "localhost:80",
-		long + ".example.com", big + "com", "example.com:8443x", strings.Repeat("s", 64) + "://example.com", strings.Repeat("s", 300) + "://example.com:99"}
+		long + ".example.com", big + "com", "example.com:8443x", strings.Repeat("s", 64) + "://example.com", strings.Repeat("s", 300) + "://example.com:99",
+		strings.Repeat("s", 62) + "://example.com", strings.Repeat("s", 63) + "://example.com", strings.Repeat("a", 63) + ".example.com", strings.Repeat("s", 63) + "://example.com:8443"}
 	i := vInt(0, len(forms)-1)
 	z := &vZone{}
 	z.answer = func(q vQuery) (*dns.Message, error) { return &dns.Message{QR: 1}, nil }
